@@ -1,7 +1,7 @@
 // C03: functions built from minterms, constants and variables evaluate as specified.
 // Oracle: independent matcher over explicit minterm descriptions (model), compared with
 // dd_edge::evaluate at EVERY assignment of the domain.
-#include "vcommon.h"
+#include "audit.h"
 using namespace V;
 
 struct MMinterm {
@@ -216,6 +216,8 @@ static void run(Ctx& c) {
         if (nonconst) c.nontrivial = true;
         if (sampleOps.size() < 600) sampleOps += desc + "; ";
     }
+    // the forest left behind by the constructions must be canonical, with exact counts (C02/C06 clauses)
+    auditForest(f, fs.kindStr(), c, "C03");
     c.sig = tos(sig ^ hashstr(fs.str().c_str()) ^ hashstr(sh.str().c_str()));
     c.count(std::string("kind:") + fs.kindStr());
     c.count(std::string("policy:") + fs.polStr());
